@@ -295,10 +295,31 @@ class AbortPlan:
             f = f.f_back
         return False
 
+    @staticmethod
+    def _in_critical_section(frame):
+        """Some frame on the stack is a method of an object whose own lock is held right now (jinja2's LRUCache
+        does `with self._wlock:` around every access to the module-global lexer cache). An exception raised at a
+        line event there can land on the instructions that leave the `with` block - they belong to the `with`
+        line and are not covered by the block's exception table - so the lock is never released and the *next*
+        translation of the process blocks forever in the dependency. That deadlock is CPython's / jinja2's
+        handling of asynchronous exceptions, not the translator's state: the abort is delivered at the next line
+        event outside the critical section instead."""
+        f = frame
+        while f is not None:
+            s = f.f_locals.get("self") if "self" in f.f_code.co_varnames else None
+            if s is not None:
+                for a in ("_wlock", "_lock"):
+                    lk = s.__dict__.get(a) if hasattr(s, "__dict__") else None
+                    if lk is not None and hasattr(lk, "locked") and lk.locked():
+                        return True
+            f = f.f_back
+        return False
+
     def _local(self, frame, event, arg):
         if event == "line":
             self.count += 1
-            if self.n is not None and self.fired is None and self.count > self.n and not self._in_cleanup(frame):
+            if (self.n is not None and self.fired is None and self.count > self.n and not self._in_cleanup(frame)
+                    and not (self.wide and self._in_critical_section(frame))):
                 fn = frame.f_code.co_filename
                 self.fired = (os.path.relpath(fn, REPO_PKG) if fn.startswith(REPO_PKG) else "dep:" + "/".join(fn.split("/")[-2:]),
                               frame.f_lineno)
